@@ -82,6 +82,15 @@ type World struct {
 	finished bool
 	// DaemonLabels: label prefixes of process-wide worker threads.
 	DaemonLabels []string
+	// Panics: goroutines that panicked during the execution (filled by Finish).
+	Panics []ThreadPanic
+}
+
+// ThreadPanic describes a panic of a server goroutine. Label "handler" = the
+// connection handler itself (recovered by net/http), anything else = a
+// goroutine whose panic would crash the process.
+type ThreadPanic struct {
+	Label, Value, Stack string
 }
 
 // New creates a world and installs its scheduler as the active one.
@@ -433,6 +442,21 @@ func (w *World) Finish() (left []Leftover) {
 		w.S.Abort()
 	}
 	w.S.Join()
+	// a panic on a goroutine outside net/http's recovery kills the process in production
+	for _, t := range w.S.Threads {
+		if t.Panic != nil {
+			lab := t.Label
+			if strings.HasPrefix(lab, "conn:") {
+				lab = "conn"
+			}
+			w.Panics = append(w.Panics, ThreadPanic{Label: lab, Value: fmt.Sprint(t.Panic), Stack: t.PanicStk})
+		}
+	}
+	for _, c := range w.Clients {
+		if c.HandlerPanic != nil {
+			w.Panics = append(w.Panics, ThreadPanic{Label: "handler", Value: fmt.Sprint(c.HandlerPanic), Stack: c.HandlerPanicStk})
+		}
+	}
 	vrt.S = nil
 	return left
 }
